@@ -10,11 +10,12 @@ SPELL = ["big", "little", "network", "local", "None/class-big", "None/class-litt
 ENGINES = {"generic": {"generate_for_pack": False, "generate_for_unpack": False},
            "vectorised": {"vectorize": True}, "non-vectorised": {"vectorize": False}}
 POSITIONS = ["alone", "before-sentinel", "after-sentinel", "between-other-order", "other-order+byte-before", "other-order+data-before",
-             "in-repeated", "in-optional"]
+             "in-repeated", "in-optional", "via-callable"]
 RULE = ("enumerated: width {1..17,24,32,64} x signed x 9 byte-order spellings (big, little, network, local, class default big / "
-        "little / network / local / absent) x 3 engines (generic loop, generated vectorised, generated non-vectorised) x 6 positions (alone, before / "
+        "little / network / local / absent) x 3 engines (generic loop, generated vectorised, generated non-vectorised) x 9 positions (alone, before / "
         "after a 1-byte sentinel, between two ints of the other byte order, after an int of the other byte order followed by a "
-        "single byte / by Data(2), as the element of .repeated(1), under .when(flag)); per configuration: ALL byte patterns for width 1 "
+        "single byte / by Data(2), as the element of .repeated(1), under .when(flag), as the field a callable Ref returns - there the class default is "
+        "not assumed to apply and only the two inverse relations are asserted for the class-default spellings); per configuration: ALL byte patterns for width 1 "
         "(and width 2 in the thorough tier; 4096 sampled in quick), every byte lane through all 256 values over backgrounds "
         "00/FF/A5, boundary values {0,+-1,min,max,min-1,max+1,2^(8n)} and seeded random integers up to 8n+8 bits on pack, and "
         "non-integers (1.0, 1.5, nan, '1', b'\\x01', None, Fraction(3), [1]); oracle: positional arithmetic written independently "
@@ -34,7 +35,7 @@ def configs(n):
 
 
 def source(n, cfgs):
-    out = ["from bisturi.packet import Packet\nfrom bisturi.field import Int, Data\n\n"]
+    out = ["from bisturi.packet import Packet\nfrom bisturi.field import Int, Data, Ref\n\n"]
     for i, (signed, sp, eng, pos) in enumerate(cfgs):
         opts = dict(ENGINES[eng])
         if sp.startswith("None/class-"):
@@ -54,7 +55,9 @@ def source(n, cfgs):
             out.append("    s0 = Int(2, endianness=%r)\n    s1 = Int(1)\n" % other)
         if pos == "other-order+data-before":
             out.append("    s0 = Int(4, endianness=%r)\n    s1 = Data(2)\n" % other)
-        if pos in ("in-repeated", "in-optional"):
+        if pos == "via-callable":
+            out.append("    s0 = Int(1)\n    x = Ref(lambda **k: Int(%s), default=0)\n" % args)
+        elif pos in ("in-repeated", "in-optional"):
             out.append("    s0 = Int(1)\n")
             out.append("    x = Int(%s)%s\n" % (args, ".repeated(1)" if pos == "in-repeated" else ".when(s0)"))
         else:
@@ -70,7 +73,7 @@ def source(n, cfgs):
 def layout(pos):
     """(bytes before, bytes after) the field under test"""
     return {"alone": (0, 0), "before-sentinel": (0, 1), "after-sentinel": (1, 0), "between-other-order": (2, 4),
-            "other-order+byte-before": (3, 0), "other-order+data-before": (6, 0), "in-repeated": (1, 0), "in-optional": (1, 0)}[pos]
+            "other-order+byte-before": (3, 0), "other-order+data-before": (6, 0), "in-repeated": (1, 0), "in-optional": (1, 0), "via-callable": (1, 0)}[pos]
 
 
 def patterns(n, rng, tier, heavy):
@@ -123,6 +126,7 @@ def run_shard(shard, ctx):
                 opts = {"endianness": sp[len("None/class-"):]} if sp.startswith("None/class-") else {}
                 big = ir.is_big(None if sp.startswith("None") else sp, opts)
                 pre, post = layout(pos)
+                agnostic = pos == "via-callable" and sp.startswith("None/class-")
                 if ctx.tier == "thorough":
                     heavy = (pos == "alone") or (eng == "vectorised" and pos == "between-other-order")
                 else:
@@ -141,7 +145,18 @@ def run_shard(shard, ctx):
                     except Exception as e:
                         ctx.violation(case(sig="decode-raises", desc="unpack(%r) raised %r" % (raw, e), raw=raw))
                         continue
-                    if got != want or isinstance(got, bool) or not isinstance(got, int):
+                    if agnostic:
+                        # which byte order a dynamically chosen Int inherits is not assumed: it must be ONE of the two, and encode must invert it
+                        if isinstance(got, bool) or not isinstance(got, int) or got not in (want, ir.int_decode(pat, signed, not big)):
+                            ctx.violation(case(sig="decode-wrong", desc="bytes %r decode to %r" % (pat, got), raw=raw))
+                        else:
+                            try:
+                                back = cls(s0=0x11, x=got).pack()
+                            except Exception as e:
+                                back = repr(e)
+                            if back != raw:
+                                ctx.violation(case(sig="decode-not-inverse", desc="bytes %r decode to %r which encodes to %r" % (raw, got, back), raw=raw))
+                    elif got != want or isinstance(got, bool) or not isinstance(got, int):
                         ctx.violation(case(sig="decode-wrong", desc="bytes %r decode to %r, expected %r" % (pat, got, want), raw=raw))
                     if pat[0 if big else n - 1] != 0 or want < 0:
                         ctx.nt((n, cfg, pat))
@@ -162,6 +177,13 @@ def run_shard(shard, ctx):
                         want = b"\x00" * pre + ir.int_encode(v, n, signed, big) + b"\x00" * post
                         if raised:
                             ctx.violation(case(sig="encode-raises", desc="packing representable %d raised %s" % (v, raised), value=v))
+                        elif agnostic:
+                            try:
+                                back = cls.unpack(out).x
+                            except Exception as e:
+                                back = repr(e)
+                            if back != v or out[pre:pre + n] not in (ir.int_encode(v, n, signed, True), ir.int_encode(v, n, signed, False)):
+                                ctx.violation(case(sig="encode-not-inverse", desc="%d packs to %r which decodes to %r" % (v, out, back), value=v))
                         elif out != want:
                             ctx.violation(case(sig="encode-wrong", desc="%d packs to %r, expected %r" % (v, out, want), value=v))
                         elif ir.int_decode(out[pre:pre + n], signed, big) != v:
@@ -185,7 +207,8 @@ def run_shard(shard, ctx):
                         continue    # None means 'absent' for an optional field
                     if isinstance(v, bool):
                         want = b"\x00" * pre + ir.int_encode(int(v), n, signed, big) + b"\x00" * post
-                        if raised or out != want:
+                        alt = b"\x00" * pre + ir.int_encode(int(v), n, signed, not big) + b"\x00" * post
+                        if raised or (out != want and not (agnostic and out == alt)):
                             ctx.violation(case(sig="bool-encode", desc="%r -> %r / %s" % (v, None if raised else out, raised), value=repr(v)))
                     elif raised is None:
                         ctx.violation(case(sig="non-integer-packed", desc="non-integer %r packed to %r instead of raising PacketError" % (v, out), value=repr(v)))
